@@ -40,6 +40,7 @@ DefsFor(name) ==
                                  \cup {Def("S", 81, <<>>, t) : t \in TagNames \ {name}}
            [] Menu = "files" -> {Def("P", 80, <<>>, ""), Def("D", 2, <<>>, "")}
            [] Menu = "bytes" -> {Def("P", 80, <<>>, ""), Def("B", 2, <<>>, ""), Def("D", 2, <<>>, "")}
+           [] Menu = "errs"  -> {Def("P", 80, <<>>, ""), Def("E", 0, <<>>, ""), Def("D", 2, <<>>, "")}
            [] Menu = "conv"  -> {Def("P", 80, <<>>, ""), Def("L", 2, <<>>, ""), Def("D", 2, <<>>, ""), Def("C", 0, <<>>, "")}
 BadDefsFor(name) ==      \* definitions that make a call invalid
     {Def("X", 0, <<>>, ""), Def("R", 0, <<>>, name), Def("R", 0, <<>>, "tag/ghost")}
